@@ -9,6 +9,7 @@ CONSTANTS
   MaxTicks = 1
   SegCap = 2
   PeriodicAdv = TRUE
+  PeriodicFix = TRUE
   EnqAnywhere = TRUE
   Record = TRUE
 INVARIANTS TypeOK OnlyLegalRemovals AcceptedOnly204InOrder DropOnly400 PurgeOnlyOld QueueInOrder PostInOrder WaitFollowsRule NoStrandedBatch
